@@ -14,10 +14,12 @@ open Rdf List
 
 /-! ## 1. Basic graph patterns: the evaluator against a declarative semantics -/
 
-/-- The term a pattern position denotes under a binding (`none`: unbound variable). -/
-def inst (b : Binding) : PT → Option Term
-  | .const c => some c
-  | .var x => b.get x
+/-- The pattern position denotes the term under the binding: the constant itself, what the
+    variable is bound to, or (helper variable with a `STR` filter) any term with that text. -/
+def denotes (b : Binding) : PT → Term → Prop
+  | .const c, t => c = t
+  | .var x, t => b.get x = some t
+  | .str s, t => strOf t = some s
 
 /-- `b'` extends `b`. -/
 def Binding.le (b b' : Binding) : Prop := ∀ x t, b.get x = some t → b'.get x = some t
@@ -36,13 +38,13 @@ theorem get_set_other (b : Binding) {x y : Var} (t : Term) (h : y ≠ x) :
 /-- Matching one position: the result extends the binding, denotes the term, and binds nothing
     but (possibly) the variable of the position. -/
 theorem matchPT_spec {b b1 : Binding} {pt : PT} {t : Term} (h : matchPT b pt t = some b1) :
-    b.le b1 ∧ inst b1 pt = some t ∧
+    b.le b1 ∧ denotes b1 pt t ∧
     (∀ y, (∀ x, pt = .var x → y ≠ x) → b1.get y = b.get y) := by
   cases pt with
   | const c =>
     simp only [matchPT] at h
     split at h
-    · cases h; rename_i e; exact ⟨Binding.le_refl _, by simp [inst, e], fun _ _ => rfl⟩
+    · cases h; rename_i e; exact ⟨Binding.le_refl _, by simp [denotes, e], fun _ _ => rfl⟩
     · cases h
   | var x =>
     simp only [matchPT] at h
@@ -50,27 +52,32 @@ theorem matchPT_spec {b b1 : Binding} {pt : PT} {t : Term} (h : matchPT b pt t =
     | some u =>
       simp only [hb] at h
       split at h
-      · cases h; rename_i e; exact ⟨Binding.le_refl _, by simp [inst, hb, e], fun _ _ => rfl⟩
+      · cases h; rename_i e; exact ⟨Binding.le_refl _, by simp [denotes, hb, e], fun _ _ => rfl⟩
       · cases h
     | none =>
       simp only [hb] at h
       cases h
-      refine ⟨?_, by simp [inst, get_set_same], fun y hy => get_set_other b t (hy x rfl)⟩
+      refine ⟨?_, by simp [denotes, get_set_same], fun y hy => get_set_other b t (hy x rfl)⟩
       intro y u hy
       by_cases e : y = x
       · subst e; rw [hb] at hy; cases hy
       · rw [get_set_other b t e]; exact hy
+  | str s =>
+    simp only [matchPT] at h
+    split at h
+    · cases h; rename_i e; exact ⟨Binding.le_refl _, e, fun _ _ => rfl⟩
+    · cases h
 
 /-- Conversely a position matches under `b` whenever some extension `b'` of `b` denotes `t`
     there, and the result is still below `b'`. -/
 theorem matchPT_complete {b b' : Binding} {pt : PT} {t : Term} (hle : b.le b')
-    (hi : inst b' pt = some t) : ∃ b1, matchPT b pt t = some b1 ∧ b1.le b' := by
+    (hi : denotes b' pt t) : ∃ b1, matchPT b pt t = some b1 ∧ b1.le b' := by
   cases pt with
   | const c =>
-    simp only [inst, Option.some.injEq] at hi
+    simp only [denotes] at hi
     exact ⟨b, by simp [matchPT, hi], hle⟩
   | var x =>
-    simp only [inst] at hi
+    simp only [denotes] at hi
     cases hb : b.get x with
     | some u =>
       have := hle x u hb
@@ -83,16 +90,20 @@ theorem matchPT_complete {b b' : Binding} {pt : PT} {t : Term} (hle : b.le b')
       by_cases e : y = x
       · subst e; rw [get_set_same] at hy; cases hy; exact hi
       · rw [get_set_other b t e] at hy; exact hle y u hy
+  | str s =>
+    simp only [denotes] at hi
+    exact ⟨b, by simp [matchPT, hi], hle⟩
 
-theorem inst_mono {b b' : Binding} (h : b.le b') {pt : PT} {t : Term} (hi : inst b pt = some t) :
-    inst b' pt = some t := by
+theorem denotes_mono {b b' : Binding} (h : b.le b') {pt : PT} {t : Term} (hi : denotes b pt t) :
+    denotes b' pt t := by
   cases pt with
   | const c => exact hi
   | var x => exact h x t hi
+  | str s => exact hi
 
 /-- All three positions of the pattern denote the triple. -/
 def instPat (b : Binding) (pat : Pat) (t : Triple) : Prop :=
-  inst b pat.s = some t.s ∧ inst b pat.p = some t.p ∧ inst b pat.o = some t.o
+  denotes b pat.s t.s ∧ denotes b pat.p t.p ∧ denotes b pat.o t.o
 
 theorem matchPat_spec {b b3 : Binding} {pat : Pat} {t : Triple} (h : matchPat b pat t = some b3) :
     b.le b3 ∧ instPat b3 pat t := by
@@ -109,7 +120,7 @@ theorem matchPat_spec {b b3 : Binding} {pat : Pat} {t : Triple} (h : matchPat b 
       obtain ⟨l2, i2, _⟩ := matchPT_spec h2
       obtain ⟨l3, i3, _⟩ := matchPT_spec h
       exact ⟨Binding.le_trans l1 (Binding.le_trans l2 l3),
-        inst_mono (Binding.le_trans l2 l3) i1, inst_mono l3 i2, i3⟩
+        denotes_mono (Binding.le_trans l2 l3) i1, denotes_mono l3 i2, i3⟩
 
 theorem matchPat_complete {b b' : Binding} {pat : Pat} {t : Triple} (hle : b.le b')
     (hi : instPat b' pat t) : ∃ b3, matchPat b pat t = some b3 ∧ b3.le b' := by
@@ -156,7 +167,7 @@ theorem ext_sound {g : Graph} {pats : List Pat} {b b' : Binding} (h : Ext g pats
     intro pat hp
     simp only [mem_cons] at hp
     rcases hp with rfl | hp
-    · exact ⟨_, ht, inst_mono ih.1 i1.1, inst_mono ih.1 i1.2.1, inst_mono ih.1 i1.2.2⟩
+    · exact ⟨_, ht, denotes_mono ih.1 i1.1, denotes_mono ih.1 i1.2.1, denotes_mono ih.1 i1.2.2⟩
     · exact ih.2 pat hp
 
 theorem ext_complete {g : Graph} : ∀ {pats : List Pat} {b b' : Binding}, b.le b' →
@@ -271,7 +282,9 @@ theorem attrPat_ok_of_key (x : Pair) (k : String) (hk : x.attr = k.toList)
     rw [hk, String.ofList_toList]
     cases hl : (tableOf x.kind).lookup k with
     | none => simp [hl] at this
-    | some p => exact ⟨_, rfl⟩
+    | some p =>
+      simp only
+      cases shapeOf x.kind k.toList <;> exact ⟨_, rfl⟩
 
 theorem attrPats_ok (l : List Pair)
     (h : ∀ x ∈ l, ∃ k : String, x.attr = k.toList ∧ k ∈ (tableOf x.kind).map (·.1)) :
@@ -721,13 +734,15 @@ def QuerySafe (q : QParams) : Prop :=
   (∀ x ∈ q.doc, safePair .doc x) ∧ (∀ x ∈ q.sec, safePair .sec x) ∧ (∀ x ∈ q.prop, safePair .prop x)
 
 theorem safeAttrs_facts : ∀ (K : Kind) (k : String), k ∈ safeAttrs K →
-    ((tableOf K).lookup k).isSome ∧ k ∈ cmpKeys ∧ k ≠ "date" ∧ k ≠ "uncertainty" ∧
+    ((tableOf K).lookup k).isSome ∧ k ∈ cmpKeys ∧
+    ((shapeOf K k.toList = .plain ∧ k ≠ "date" ∧ k ≠ "uncertainty") ∨ shapeOf K k.toList = .text) ∧
+    (K = .prop ∨ k ≠ "uncertainty") ∧
     k ≠ "repository" ∧ k ≠ "id" ∧ k ≠ "sections" ∧ k ≠ "properties" ∧ k ≠ "value" := by
   intro K k hk
   cases K <;> simp only [safeAttrs, mem_cons, mem_nil_iff, or_false] at hk
-  · rcases hk with rfl | rfl <;> decide
+  · rcases hk with rfl | rfl | rfl <;> decide
   · rcases hk with rfl | rfl | rfl | rfl <;> decide
-  · rcases hk with rfl | rfl | rfl | rfl | rfl | rfl <;> decide
+  · rcases hk with rfl | rfl | rfl | rfl | rfl | rfl | rfl <;> decide
 
 theorem mem_of_lookup_str {k v : String} : ∀ {tbl : List (String × String)},
     tbl.lookup k = some v → (k, v) ∈ tbl
@@ -740,32 +755,60 @@ theorem mem_of_lookup_str {k v : String} : ∀ {tbl : List (String × String)},
       simp only [this] at h
       exact mem_cons_of_mem _ (mem_of_lookup_str h)
 
-/-- For a representable, string-valued attribute: the node has the triple `pred "v"` iff the
-    object carries the value `v` for that attribute. -/
-theorem lit_mem_attrObjs {chk : PyVal → Bool} {conv : String → PyVal → Term} {a : Attrs} {k : String}
-    {v : Str} (hchk : ∀ s : Str, s.isEmpty = false → chk (.str s) = true)
-    (hconv : ∀ s, conv k (.str s) = .lit s [])
+/-- What the object position of the pattern of a pair asks for: any term with the text of the
+    value (`date`, `uncertainty`), the plain string literal otherwise. -/
+def ObjMatch (y : Pair) (o : Term) : Prop :=
+  match shapeOf y.kind y.attr with
+  | .text => strOf o = some y.val
+  | _ => Term.lit y.val [] = o
+
+theorem strOf_toLit (v : PyVal) : strOf v.toLit = some v.lex := by cases v <;> rfl
+theorem strOf_toDateLit (v : PyVal) : strOf v.toDateLit = some v.lex := by cases v <;> rfl
+
+theorem reprVal_str {k : String} {pv : PyVal} (hd : k ≠ "date") (hu : k ≠ "uncertainty")
+    (h : reprVal k pv = true) : ∃ s, pv = .str s := by
+  have hd' : (k == "date") = false := by simpa using hd
+  have hu' : (k == "uncertainty") = false := by simpa using hu
+  cases pv with
+  | str s => exact ⟨s, rfl⟩
+  | float r => simp [reprVal, hu'] at h
+  | date d => simp [reprVal, hd'] at h
+  | int i => simp [reprVal] at h
+
+/-- For a representable attribute: the node has a triple `pred o` with an object the pattern of
+    the pair asks for iff the object carries the value for that attribute (its Python value, as
+    text, is the searched string). -/
+theorem obj_mem_attrObjs {chk : PyVal → Bool} {conv : String → PyVal → Term} {a : Attrs} {k : String}
+    {y : Pair}
+    (hchk : ∀ pv, reprVal k pv = true → chk pv = true)
+    (hconvP : k ≠ "date" → k ≠ "uncertainty" → ∀ s, conv k (.str s) = .lit s [])
+    (hconvT : ∀ pv, strOf (conv k pv) = some pv.lex)
     (repr : ∀ pv, a.lookup k = some pv → reprVal k pv = true)
-    (hd : k ≠ "date") (hu : k ≠ "uncertainty") :
-    (Term.lit v []) ∈ attrObjs chk conv a k ↔
-      (match a.lookup k with | some pv => pv.lex == v | none => false) = true := by
+    (hshape : (shapeOf y.kind y.attr = .plain ∧ k ≠ "date" ∧ k ≠ "uncertainty") ∨
+      shapeOf y.kind y.attr = .text) :
+    (∃ o, ObjMatch y o ∧ o ∈ attrObjs chk conv a k) ↔
+      (match a.lookup k with | some pv => pv.lex == y.val | none => false) = true := by
   unfold attrObjs
   cases hl : a.lookup k with
   | none => simp
   | some pv =>
     have hr := repr pv hl
-    have hd' : (k == "date") = false := by simpa using hd
-    have hu' : (k == "uncertainty") = false := by simpa using hu
-    cases pv with
-    | str s =>
-      simp only [reprVal, Bool.and_eq_true, Bool.not_eq_true'] at hr
-      have : chk (.str s) = true := hchk s hr.1
-      simp only [this, if_true, mem_cons, mem_nil_iff, or_false, hconv, Term.lit.injEq, and_true,
-        PyVal.lex, beq_iff_eq]
-      exact eq_comm
-    | float r => simp [reprVal, hu'] at hr
-    | date d => simp [reprVal, hd'] at hr
-    | int i => simp [reprVal] at hr
+    simp only [hchk pv hr, if_true, mem_cons, mem_nil_iff, or_false, beq_iff_eq]
+    rcases hshape with ⟨hsh, hd, hu⟩ | hsh
+    · obtain ⟨s, rfl⟩ := reprVal_str hd hu hr
+      simp only [ObjMatch, hsh, hconvP hd hu, PyVal.lex]
+      constructor
+      · rintro ⟨o, e1, e2⟩
+        rw [e2] at e1
+        simp only [Term.lit.injEq, and_true] at e1
+        exact e1.symm
+      · intro e; exact ⟨_, by rw [e], rfl⟩
+    · simp only [ObjMatch, hsh]
+      constructor
+      · rintro ⟨o, e1, e2⟩
+        rw [e2, hconvT] at e1
+        exact Option.some.inj e1
+      · intro e; exact ⟨_, by rw [hconvT, e], rfl⟩
 
 
 /-! ## 6. The three parts of a query on the exported graph -/
@@ -797,6 +840,29 @@ theorem mem_flat_of_prop {ds : List DocT} {p : PropT} (hp : p ∈ docProps ds) {
   rw [flatGraph_eq]
   exact mem_append_right _ (mem_append_right _ (mem_flatMap.mpr ⟨p, hp, h⟩))
 
+theorem shape_of_safe {K : Kind} {y : Pair} (hs : safePair K y) :
+    (shapeOf y.kind y.attr = .plain ∧ String.ofList y.attr ≠ "date" ∧
+      String.ofList y.attr ≠ "uncertainty") ∨ shapeOf y.kind y.attr = .text := by
+  have := (safeAttrs_facts K _ hs.2).2.2.1
+  rw [String.toList_ofList, ← hs.1] at this
+  exact this
+
+theorem truthy_of_repr {k : String} (hu : k ≠ "uncertainty") (pv : PyVal) (h : reprVal k pv = true) :
+    pv.truthy = true := by
+  have hu' : (k == "uncertainty") = false := by simpa using hu
+  cases pv with
+  | str s => simp only [reprVal, Bool.and_eq_true, Bool.not_eq_true'] at h; simp [PyVal.truthy, h.1]
+  | float r => simp [reprVal, hu'] at h
+  | date d => rfl
+  | int i => simp [reprVal] at h
+
+theorem isSet_of_repr {k : String} (pv : PyVal) (h : reprVal k pv = true) : pv.isSet = true := by
+  cases pv with
+  | str s => simp only [reprVal, Bool.and_eq_true, Bool.not_eq_true'] at h; simp [PyVal.isSet, h.1]
+  | float r => rfl
+  | date d => rfl
+  | int i => rfl
+
 section parts
 variable (ok : QTablesOK) {ds : List DocT} (wf : WFDocs ds) (r : RdfRepr ds) (nr : NoRepo ds)
   {g : Graph} (hg : ∀ t, t ∈ g ↔ t ∈ flatGraph cfg0 ds) (F : Facts g ds)
@@ -805,7 +871,7 @@ include ok wf r nr hg F
 /-- The attribute patterns of one kind at a node, as triples of the graph. -/
 def AttrTriples (g : Graph) (K : Kind) (x : Term) (l : List Pair) : Prop :=
   ∀ y ∈ l, ∀ pred, (tableOf K).lookup (String.ofList y.attr) = some pred →
-    (⟨x, .iri pred.toList, .lit y.val []⟩ : Triple) ∈ g
+    ∃ o, ObjMatch y o ∧ (⟨x, .iri pred.toList, o⟩ : Triple) ∈ g
 
 theorem doc_attrs_iff {d : DocT} (hd : d ∈ ds) (l : List Pair) (hs : ∀ y ∈ l, safePair .doc y) :
     AttrTriples g .doc (node d.id) l ↔ carriesAll d.attrs l = true := by
@@ -813,16 +879,30 @@ theorem doc_attrs_iff {d : DocT} (hd : d ∈ ds) (l : List Pair) (hs : ∀ y ∈
   simp only [all_eq_true]
   refine forall_congr' (fun y => forall_congr' (fun hy => ?_))
   obtain ⟨f1, f2, f3, f4, f5, f6, f7, f8, f9⟩ := safeAttrs_facts .doc _ (hs y hy).2
+  have hu : String.ofList y.attr ≠ "uncertainty" := by
+    rcases f4 with h | h
+    · cases h
+    · exact h
   cases hl : (tableOf .doc).lookup (String.ofList y.attr) with
   | none => simp [hl] at f1
   | some pred =>
     have hkp := mem_of_lookup_str hl
     have hperm := F.docAttr d hd _ hkp f6 f7
     simp only [Option.some.injEq, forall_eq']
-    rw [← mem_objects, hperm.mem_iff]
+    simp only [← mem_objects, hperm.mem_iff]
     unfold carries
-    exact lit_mem_attrObjs (chk := PyVal.truthy) (conv := docConv) (fun s h => by simp [PyVal.truthy, h]) (fun s => by simp [docConv, f5, f3, PyVal.toLit])
-      (fun pv h => (r.docs d hd _ pv h).2 f2) f3 f4
+    exact obj_mem_attrObjs (chk := PyVal.truthy) (conv := docConv) (truthy_of_repr hu)
+      (fun h1 _ s => by
+        have h1' : (String.ofList y.attr == "date") = false := by simpa using h1
+        have h5' : (String.ofList y.attr == "repository") = false := by simpa using f5
+        simp [docConv, h1', h5', PyVal.toLit])
+      (fun pv => by
+        have h5' : (String.ofList y.attr == "repository") = false := by simpa using f5
+        simp only [docConv, h5', Bool.false_eq_true, if_false]
+        split
+        · exact strOf_toDateLit pv
+        · exact strOf_toLit pv)
+      (fun pv h => (r.docs d hd _ pv h).2 f2) (shape_of_safe (hs y hy))
 
 theorem sec_attrs_iff {s : SecT} (hsm : s ∈ docSecs ds) (l : List Pair) (hs : ∀ y ∈ l, safePair .sec y) :
     AttrTriples g .sec (node s.id) l ↔ carriesAll s.attrs l = true := by
@@ -830,16 +910,25 @@ theorem sec_attrs_iff {s : SecT} (hsm : s ∈ docSecs ds) (l : List Pair) (hs : 
   simp only [all_eq_true]
   refine forall_congr' (fun y => forall_congr' (fun hy => ?_))
   obtain ⟨f1, f2, f3, f4, f5, f6, f7, f8, f9⟩ := safeAttrs_facts .sec _ (hs y hy).2
+  have hu : String.ofList y.attr ≠ "uncertainty" := by
+    rcases f4 with h | h
+    · cases h
+    · exact h
   cases hl : (tableOf .sec).lookup (String.ofList y.attr) with
   | none => simp [hl] at f1
   | some pred =>
     have hkp := mem_of_lookup_str hl
     have hperm := F.secAttr s hsm _ hkp f6 f7 f8
     simp only [Option.some.injEq, forall_eq']
-    rw [← mem_objects, hperm.mem_iff]
+    simp only [← mem_objects, hperm.mem_iff]
     unfold carries
-    exact lit_mem_attrObjs (chk := PyVal.truthy) (conv := secConv) (fun s h => by simp [PyVal.truthy, h]) (fun s => by simp [secConv, f5, PyVal.toLit])
-      (fun pv h => ((r.secs s hsm).1 _ pv h).2 f2) f3 f4
+    have h5' : (String.ofList y.attr == "repository") = false := by simpa using f5
+    exact obj_mem_attrObjs (chk := PyVal.truthy) (conv := secConv) (truthy_of_repr hu)
+      (fun _ _ s => by simp [secConv, h5', PyVal.toLit])
+      (fun pv => by
+        simp only [secConv, h5', Bool.false_eq_true, if_false]
+        exact strOf_toLit pv)
+      (fun pv h => ((r.secs s hsm).1 _ pv h).2 f2) (shape_of_safe (hs y hy))
 
 theorem prop_attrs_iff {p : PropT} (hpm : p ∈ docProps ds) (l : List Pair) (hs : ∀ y ∈ l, safePair .prop y) :
     AttrTriples g .prop (node p.id) l ↔ propCarriesAll p l = true := by
@@ -857,10 +946,12 @@ theorem prop_attrs_iff {p : PropT} (hpm : p ∈ docProps ds) (l : List Pair) (hs
     have hkp := mem_of_lookup_str hl
     have hperm := F.propAttr p hpm _ hkp f6 f9
     simp only [Option.some.injEq, forall_eq', hv, Bool.false_eq_true, if_false]
-    rw [← mem_objects, hperm.mem_iff]
+    simp only [← mem_objects, hperm.mem_iff]
     unfold carries
-    exact lit_mem_attrObjs (chk := PyVal.isSet) (conv := propConv) (fun s h => by simp [PyVal.isSet, h]) (fun s => by simp [propConv, PyVal.toLit])
-      (fun pv h => ((r.props p hpm).1 _ pv h).2 f2) f3 f4
+    exact obj_mem_attrObjs (chk := PyVal.isSet) (conv := propConv) (fun pv h => isSet_of_repr pv h)
+      (fun _ _ s => by simp [propConv, PyVal.toLit])
+      (fun pv => by simp only [propConv]; exact strOf_toLit pv)
+      (fun pv h => ((r.props p hpm).1 _ pv h).2 f2) (shape_of_safe (hs y hy))
 
 theorem doc_type_iff (x : Term) : (⟨x, rdfType, docT⟩ : Triple) ∈ g ↔ ∃ d ∈ ds, x = node d.id := by
   rw [hg]
@@ -986,32 +1077,54 @@ theorem ext_frame {g : Graph} {pats : List Pat} {b b' : Binding} (h : Ext g pats
 
 /-! ## 8. Patterns of a safe query -/
 
+/-- The object position of the pattern of a pair. -/
+def objPT (x : Pair) : PT :=
+  match shapeOf x.kind x.attr with
+  | .text => .str x.val
+  | _ => .const (.lit x.val [])
+
 def patOf (x : Pair) (pred : String) : Pat :=
-  ⟨.var (varOf x.kind), .const (.iri pred.toList), .const (.lit x.val [])⟩
+  ⟨.var (varOf x.kind), .const (.iri pred.toList), objPT x⟩
+
+theorem denotes_objPT (b : Binding) (y : Pair) (o : Term) : denotes b (objPT y) o ↔ ObjMatch y o := by
+  unfold objPT ObjMatch
+  cases shapeOf y.kind y.attr <;> simp [denotes]
+
+theorem objPT_not_var (y : Pair) (v : Var) : objPT y ≠ .var v := by
+  unfold objPT
+  cases shapeOf y.kind y.attr <;> simp
+
+theorem attr_ne_value {y : Pair} (f9 : String.ofList y.attr ≠ "value") :
+    (y.attr == "value".toList) = false := by
+  have : y.attr ≠ "value".toList := by
+    intro e; apply f9; rw [e]; exact String.ofList_toList
+  simpa using this
 
 theorem attrPat_safe {K : Kind} {y : Pair} (hs : safePair K y) :
-    ∃ pred, (tableOf K).lookup (String.ofList y.attr) = some pred ∧ attrPat y = .ok [patOf y pred] := by
+    ∃ pred, (tableOf K).lookup (String.ofList y.attr) = some pred ∧ attrPat y = .ok [patOf y pred] ∧
+      attrFlt y = [] := by
   obtain ⟨f1, _, _, _, _, _, _, _, f9⟩ := safeAttrs_facts K _ hs.2
+  have hsh := shape_of_safe hs
   have hk := hs.1
   subst hk
-  have hv2 : (y.attr == "value".toList) = false := by
-    have : y.attr ≠ "value".toList := by
-      intro e; apply f9; rw [e]; exact String.ofList_toList
-    simpa using this
+  have hv2 := attr_ne_value f9
   cases hl : (tableOf y.kind).lookup (String.ofList y.attr) with
   | none => simp [hl] at f1
   | some pred =>
-    refine ⟨pred, rfl, ?_⟩
-    unfold attrPat
-    simp only [hv2, Bool.and_false, Bool.false_eq_true, if_false, hl]
-    rfl
+    refine ⟨pred, rfl, ?_, ?_⟩
+    · unfold attrPat patOf objPT
+      simp only [hv2, Bool.and_false, Bool.false_eq_true, if_false, hl]
+      rcases hsh with ⟨h, _⟩ | h <;> simp only [h]
+    · unfold attrFlt
+      simp only [hv2, Bool.and_false, Bool.false_eq_true, if_false, hl]
+      rcases hsh with ⟨h, _⟩ | h <;> simp only [h]
 
 theorem attrPats_safe {K : Kind} : ∀ (l : List Pair), (∀ y ∈ l, safePair K y) →
     ∃ ps, attrPats l = .ok ps ∧ ∀ pat, pat ∈ ps ↔
       ∃ y ∈ l, ∃ pred, (tableOf K).lookup (String.ofList y.attr) = some pred ∧ pat = patOf y pred
   | [], _ => ⟨[], rfl, by simp⟩
   | y :: r, hs => by
-    obtain ⟨pred, hl, hp⟩ := attrPat_safe (hs y (by simp))
+    obtain ⟨pred, hl, hp, _⟩ := attrPat_safe (hs y (by simp))
     obtain ⟨ps, hps, hm⟩ := attrPats_safe r (fun z hz => hs z (by simp [hz]))
     refine ⟨patOf y pred :: ps, by simp [attrPats, hp, hps], ?_⟩
     intro pat
@@ -1023,6 +1136,24 @@ theorem attrPats_safe {K : Kind} : ∀ (l : List Pair), (∀ y ∈ l, safePair K
     · rintro ⟨z, rfl | hz, pr, h1, h2⟩
       · rw [hl] at h1; cases h1; exact .inl h2
       · exact .inr ⟨z, hz, pr, h1, h2⟩
+
+theorem flatMap_attrFlt_safe {K : Kind} (l : List Pair) (hs : ∀ y ∈ l, safePair K y) :
+    l.flatMap attrFlt = [] := by
+  rw [flatMap_eq_nil_iff]
+  intro y hy
+  exact (attrPat_safe (hs y hy)).choose_spec.2.2
+
+/-- A query over the attributes of `QuerySafe` has no FILTER on the variables of the rows. -/
+theorem prepareFilters_safe {q : QParams}
+    (safe : (∀ x ∈ q.doc, safePair .doc x) ∧ (∀ x ∈ q.sec, safePair .sec x) ∧
+      (∀ x ∈ q.prop, safePair .prop x)) : prepareFilters q = [] := by
+  unfold prepareFilters
+  rw [flatMap_attrFlt_safe q.doc safe.1, flatMap_attrFlt_safe q.sec safe.2.1,
+    flatMap_attrFlt_safe q.prop safe.2.2]
+  rfl
+
+theorem filtered_nil (g : Graph) (pats : List Pat) : filtered g pats [] = solutions g pats := by
+  simp [filtered]
 
 /-- A binding satisfies the patterns in the graph. -/
 def Sat (g : Graph) (pats : List Pat) (b : Binding) : Prop := ∀ pat ∈ pats, ∃ t ∈ g, instPat b pat t
@@ -1042,18 +1173,29 @@ theorem sat_vcc {g : Graph} {b : Binding} {v : Var} {c1 c2 : Term} :
       ∃ x, b.get v = some x ∧ (⟨x, c1, c2⟩ : Triple) ∈ g := by
   constructor
   · rintro ⟨⟨ts, tp, to⟩, ht, h1, h2, h3⟩
-    simp only [inst, Option.some.injEq] at h1 h2 h3
+    simp only [denotes] at h1 h2 h3
     subst h2 h3
     exact ⟨ts, h1, ht⟩
   · rintro ⟨x, hx, ht⟩
     exact ⟨_, ht, hx, rfl, rfl⟩
+
+theorem sat_vcx {g : Graph} {b : Binding} {v : Var} {c1 : Term} {pt : PT} :
+    (∃ t ∈ g, instPat b ⟨.var v, .const c1, pt⟩ t) ↔
+      ∃ x o, b.get v = some x ∧ denotes b pt o ∧ (⟨x, c1, o⟩ : Triple) ∈ g := by
+  constructor
+  · rintro ⟨⟨ts, tp, to⟩, ht, h1, h2, h3⟩
+    simp only [denotes] at h1 h2
+    subst h2
+    exact ⟨ts, to, h1, h3, ht⟩
+  · rintro ⟨x, o, hx, ho, ht⟩
+    exact ⟨_, ht, hx, rfl, ho⟩
 
 theorem sat_vcv {g : Graph} {b : Binding} {v w : Var} {c : Term} :
     (∃ t ∈ g, instPat b ⟨.var v, .const c, .var w⟩ t) ↔
       ∃ x y, b.get v = some x ∧ b.get w = some y ∧ (⟨x, c, y⟩ : Triple) ∈ g := by
   constructor
   · rintro ⟨⟨ts, tp, to⟩, ht, h1, h2, h3⟩
-    simp only [inst, Option.some.injEq] at h1 h2 h3
+    simp only [denotes] at h1 h2 h3
     subst h2
     exact ⟨ts, to, h1, h3, ht⟩
   · rintro ⟨x, y, hx, hy, ht⟩
@@ -1070,14 +1212,15 @@ theorem sat_attrs {g : Graph} {K : Kind} {l : List Pair} {ps : List Pat} {b : Bi
   · intro h y hy pred hl
     have := h (patOf y pred) ((hm _).mpr ⟨y, hy, pred, hl, rfl⟩)
     unfold patOf at this
-    obtain ⟨x', hx', ht⟩ := sat_vcc.mp this
+    obtain ⟨x', o, hx', ho, ht⟩ := sat_vcx.mp this
     rw [hk y hy, hx] at hx'
     cases hx'
-    exact ht
+    exact ⟨o, (denotes_objPT b y o).mp ho, ht⟩
   · intro h pat hp
     obtain ⟨y, hy, pred, hl, rfl⟩ := (hm pat).mp hp
     unfold patOf
-    exact sat_vcc.mpr ⟨x, by rw [hk y hy]; exact hx, h y hy pred hl⟩
+    obtain ⟨o, ho, ht⟩ := h y hy pred hl
+    exact sat_vcx.mpr ⟨x, o, by rw [hk y hy]; exact hx, (denotes_objPT b y o).mpr ho, ht⟩
 
 mutual
 theorem mem_allSecs_cases : ∀ (s : SecT), ∀ x ∈ allSecs s, x = s ∨ ∃ s0 ∈ allSecs s, x ∈ s0.subs
@@ -1294,7 +1437,7 @@ theorem mentions_patOf {y : Pair} {pred : String} {v : Var} (h : mentions (patOf
   rcases h with h | h | h
   · cases h; rfl
   · cases h
-  · cases h
+  · exact absurd h (objPT_not_var y v)
 
 /-- **Sound and complete**: on the export of a well-formed, representable document set without
     repositories, for a query over string-valued attributes, a row is returned by the generated
@@ -1315,7 +1458,7 @@ theorem sound_complete (ok : QTablesOK) (ds : List DocT) (q : QParams) (wf : WFD
     rw [sat_append, sat_append, satD_iff ok wf r nr hg F safe mdp, satS_iff ok wf r nr hg F safe msp,
       satP_iff ok wf r nr hg F safe mpp, and_assoc]
   refine ⟨(solutions (exportRdf cfg0 ds) (docPats q dp ++ secPats q sp ++ propPats q pp)).map
-    (fun b => (b.d, b.s, b.p)), by simp only [queryRows, hq], ?_⟩
+    (fun b => (b.d, b.s, b.p)), by simp only [queryRows, hq, prepareFilters_safe safe, filtered_nil], ?_⟩
   -- which variables the patterns mention
   have mD : ∀ pat ∈ docPats q dp, ∀ v, mentions pat v → v = .d := by
     intro pat hp v hv
@@ -1476,6 +1619,107 @@ theorem sound_complete (ok : QTablesOK) (ds : List DocT) (q : QParams) (wf : WFD
         · exact h.symm
     rw [hd, hsv, hpv]
 
+
+/-! ## 10. The FILTER of a searched value on the export -/
+
+theorem seqItems_obj {seq : Term} {t : Triple} : ∀ {k : Nat} {vs : List Lit},
+    t ∈ seqItems seq k vs → ∃ v ∈ vs, t.o = v.toTerm
+  | _, [], h => by simp [seqItems] at h
+  | k, v :: vs, h => by
+    simp only [seqItems, mem_cons] at h
+    rcases h with rfl | h
+    · exact ⟨v, by simp, rfl⟩
+    · obtain ⟨w, hw, e⟩ := seqItems_obj h
+      exact ⟨w, by simp [hw], e⟩
+
+theorem seqItems_of_mem {seq : Term} {v : Lit} : ∀ {k : Nat} {vs : List Lit},
+    v ∈ vs → ∃ j, (⟨seq, li j, v.toTerm⟩ : Triple) ∈ seqItems seq k vs
+  | _, [], h => by simp at h
+  | k, w :: vs, h => by
+    simp only [mem_cons] at h
+    rcases h with rfl | h
+    · exact ⟨k, by simp [seqItems]⟩
+    · obtain ⟨j, hj⟩ := seqItems_of_mem (seq := seq) (k := k + 1) h
+      exact ⟨j, by simp [seqItems, hj]⟩
+
+theorem isMemberPred_li (j : Nat) : isMemberPred (li j) = true := by
+  simp [isMemberPred, li, strOf, stripPrefix_append]
+
+theorem isMemberPred_rdfType : isMemberPred rdfType = false := by decide
+
+/-- A member triple of a value sequence node among the triples of a Property step. -/
+theorem savePropertyKey_member {p : PropT} {kp : String × String} {t : Triple} {n : Str}
+    (h : t ∈ savePropertyKey p kp) (hs : t.s = .seqn n) (hm : isMemberPred t.p = true) :
+    ∃ v ∈ p.values, t.o = v.toTerm := by
+  unfold savePropertyKey at h
+  simp only at h
+  split at h
+  · split at h
+    · simp at h
+    · simp only [saveValues, mem_cons] at h
+      rcases h with rfl | rfl | h
+      · simp only at hm; rw [isMemberPred_rdfType] at hm; cases hm
+      · simp only [node] at hs; cases hs
+      · exact seqItems_obj h
+  · split at h
+    · simp at h
+    · split at h
+      · simp at h
+      · split at h
+        · simp only [mem_cons, mem_nil_iff, or_false] at h
+          subst h
+          simp only [node] at hs; cases hs
+        · simp at h
+
+/-- **The FILTER of a searched value is exact** on every export (no sub-classing, no
+    repositories) of a well-formed document set: with `?v` bound to the value node of a Property,
+    `FILTER EXISTS { ?v ?t1 ?t2 . FILTER (STRSTARTS(STR(?t1), "…#_") && STR(?t2) = "s") }` holds iff
+    `s` is the text of one of the values of that Property. -/
+theorem value_filter_exact (ok : QTablesOK) {ds : List DocT} (wf : WFDocs ds) (nr : NoRepo ds)
+    {p : PropT} (hp : p ∈ docProps ds) (hv : ∃ pred, ("value", pred) ∈ Gen.Format.propertyRdfMap)
+    (b : Binding) (hb : b.get .v = some (.seqn p.id)) (s : Str) :
+    (Flt.member .v s).holds (exportRdf cfg0 ds) b = true ↔ ∃ l ∈ p.values, l.lex = s := by
+  have hperm := export_flat cfg0 ok.base.secOK ok.base.docOK ds
+  simp only [Flt.holds, boundTo, hb, any_eq_true, Bool.and_eq_true, beq_iff_eq]
+  constructor
+  · rintro ⟨t, ht, ⟨e1, e2⟩, e3⟩
+    have hs : t.s = .seqn p.id := e1.symm
+    rcases mem_flat_cases (hperm.mem_iff.mp ht) with ⟨d, hd, h⟩ | ⟨d, hd, kp, hkp, h⟩ | ⟨s0, hs0, h⟩ | ⟨s0, hs0, kp, hkp, h⟩ |
+      ⟨p0, hp0, h⟩ | ⟨p0, hp0, kp, hkp, h⟩
+    · exfalso
+      simp only [docHead, mem_cons, mem_nil_iff, or_false] at h
+      rcases h with rfl | rfl | rfl <;> simp [node, hub] at hs
+    · exfalso
+      have c := ownDocStep_cases (nr.1 d hd) h
+      rw [c.1] at hs; simp [node] at hs
+    · exfalso; subst h; simp [node] at hs
+    · exfalso
+      have c := ownSecStep_cases (nr.2 s0 hs0) h
+      rw [c.1] at hs; simp [node] at hs
+    · exfalso; subst h; simp [node] at hs
+    · obtain ⟨v, hvm, e⟩ := savePropertyKey_member h hs e2
+      have hid : p0.id = p.id := by
+        rcases savePropertyKey_cases h with ⟨c, _⟩ | ⟨c, _⟩
+        · rw [c] at hs; simp [node] at hs
+        · rw [c] at hs; simpa using hs
+      have := eq_of_nodup_map (wf_props_nodup wf) hp0 hp hid
+      subst this
+      refine ⟨v, hvm, ?_⟩
+      rw [e] at e3
+      simpa [Lit.toTerm, strOf] using e3
+  · rintro ⟨l, hl, rfl⟩
+    obtain ⟨pred, hpred⟩ := hv
+    obtain ⟨j, hj⟩ := seqItems_of_mem (seq := .seqn p.id) (k := 1) hl
+    have hne : p.values.isEmpty = false := by
+      cases hvs : p.values with
+      | nil => rw [hvs] at hl; simp at hl
+      | cons a r => rfl
+    refine ⟨⟨.seqn p.id, li j, l.toTerm⟩, ?_, ⟨rfl, isMemberPred_li j⟩, by simp [Lit.toTerm, strOf]⟩
+    refine hperm.mem_iff.mpr (mem_flat_of_prop hp ?_)
+    unfold saveProperty
+    refine mem_cons_of_mem _ (mem_flatMap.mpr ⟨_, hpred, ?_⟩)
+    simp only [savePropertyKey, beq_self_eq_true, if_true, hne, Bool.false_eq_true, if_false, saveValues]
+    exact mem_cons_of_mem _ (mem_cons_of_mem _ hj)
 
 theorem querySafe_of_B {q : QParams} (h : querySafeB q = true) : QuerySafe q := by
   simp only [querySafeB, Bool.and_eq_true, all_eq_true, safePairB, beq_iff_eq, contains_iff_mem] at h
